@@ -233,6 +233,12 @@ def update_resource_class(req):  # noqa
         except exception.ResourceClassExists:
             # Someone just now created the class, so stick with 204
             pass
+        except exception.MaxDBRetriesExceeded:
+            raise webob.exc.HTTPConflict(
+                'Max retries of DB transaction exceeded attempting '
+                'to create resource class: %(name)s, please '
+                'try again.' %
+                {'name': name})
 
     req.response.status = status
     req.response.content_type = None
